@@ -146,7 +146,26 @@ func runC14(a *A) {
 		}
 	})
 	a.Rule("ordtab/lru-eviction", 2, func() {
+		// the eviction lives in the method of analyticFieldEngine that deletes from fe.partitions
+		// (getStateLocked, or a helper it calls)
 		fn := a.Method("stream", "analyticFieldEngine", "getStateLocked")
+		partsF := a.FieldOf(a.Named("stream", "analyticFieldEngine"), "partitions")
+		for _, h := range append([]*ssa.Function{fn}, a.helpersOf(fn)...) {
+			has := false
+			allInstrs(h, func(in ssa.Instruction) {
+				if c, ok := in.(*ssa.Call); ok {
+					if cc, ok := isBuiltinCall(c, "delete"); ok {
+						if t := TermOf(cc.Args[0], nil); t.Kind == "field" && t.Field == partsF {
+							has = true
+						}
+					}
+				}
+			})
+			if has {
+				fn = h
+				break
+			}
+		}
 		spec := OrdSpec{Roles: []string{"len", "cap"},
 			Role: func(t *Term) string {
 				if t.Kind == "call" && t.Name == "(*container/list.List).Len" {
